@@ -735,3 +735,27 @@ Definition code_err (code : Z) : option err :=
    without appending (c <> 0), resp. appends and acknowledges (c = 0) *)
 Definition reaction_of_code (code : Z) : reaction :=
   match code_err code with None => AppliedAcked | Some e => RejectedCode e end.
+
+(* ------------------------------------------------------------------------------------------
+   Writer options -> effective configuration: the accessor functions of writer.go
+   (batchSize(), batchBytes(), maxAttempts(), batchTimeout(), writeBackoffMin/Max(),
+   readTimeout(), writeTimeout()): a field that is not positive means its documented default.
+   The config record the transition system runs with is built from the DEFAULTED values; the
+   harness reads them through the accessors (VerifWriterEffective) and op cfgd compares the
+   mapping itself.  Durations in milliseconds.
+   ------------------------------------------------------------------------------------------ *)
+Record woptions := mkOpt {
+  o_batchSize : Z; o_batchBytes : Z; o_maxAttempts : Z; o_batchTimeoutMs : Z;
+  o_backoffMinMs : Z; o_backoffMaxMs : Z; o_readTimeoutMs : Z; o_writeTimeoutMs : Z
+}.
+Definition dflt (v d : Z) : Z := if Z.ltb 0 v then v else d.
+Definition eff_batchSize (o : woptions) : Z := dflt (o_batchSize o) 100.
+Definition eff_batchBytes (o : woptions) : Z := dflt (o_batchBytes o) 1048576.
+Definition eff_maxAttempts (o : woptions) : Z := dflt (o_maxAttempts o) 10.
+Definition eff_batchTimeoutMs (o : woptions) : Z := dflt (o_batchTimeoutMs o) 1000.
+Definition eff_backoffMinMs (o : woptions) : Z := dflt (o_backoffMinMs o) 100.
+Definition eff_backoffMaxMs (o : woptions) : Z := dflt (o_backoffMaxMs o) 1000.
+Definition eff_readTimeoutMs (o : woptions) : Z := dflt (o_readTimeoutMs o) 10000.
+Definition eff_writeTimeoutMs (o : woptions) : Z := dflt (o_writeTimeoutMs o) 10000.
+Definition cfg_of_options (o : woptions) (asy : bool) (wt : option N) (retr : err -> bool) : config :=
+  mkCfg (Z.to_nat (eff_batchSize o)) (Z.to_N (eff_batchBytes o)) (Z.to_nat (eff_maxAttempts o)) asy wt retr.
